@@ -936,13 +936,27 @@ def space_targets():
     return [Target('closest_grid_point', [f], 'specs/C13/space.h', cbmc_flags=CADICAL)]
 
 
+def result_ctor_targets():
+    f = Fn('result_ctor', TU_R, 'result_t', flt=FLT_R, select=nparams(2), kinds=('CXXConstructorDecl',), self_struct='struct nv_resc',
+           types=[(r'^nano::param_spaces_t$|std::vector<nano::param_space_t|^nano::strings_t$|anys_t$|std::vector<std::', 'struct nv_vecn'),
+                  (r'^nano::tensor2d_t$|tensor_mem_t<double, 2|tensor_vector_storage_t, double, 2', 'struct nv_d2'),
+                  (r'^nano::tensor5d_t$|tensor_mem_t<double, 5|tensor_vector_storage_t, double, 5', 'struct nv_d5'),
+                  (r'^std::string$|^nano::string_t$|basic_string<', 'struct nv_str'), (r'^std::any$', 'struct nv_any')],
+           calls=[(r'^move\|', '{0}'), (r'^ctor\|nano::(tensor2d_t|tensor_t<nano::tensor_vector_storage_t, double, 2>)\|void \(int, long\)', 'nv_d2_make({0}, {1})'),
+                  (r'^make_full_tensor\|tensor_mem_t<double, 5', '{0}'), (r'^make_full_tensor\|tensor_mem_t<double, 2', '{0}'),
+                  (r'^make_dims\|.*\(.*,.*,.*,.*,.*\)', 'nv_d5_make({0}, {1}, {2}, {3}, {4})'), (r'^make_dims\|.*\(.*,.*\)', 'nv_d2_make({0}, {1})'),
+                  (r'^make_random_path\|', '@nondet')],
+           members=[(r'^size\|.*std::vector', '({self}->n)')])
+    return [Target('result_ctor', [f], 'specs/C13/result_ctor.h', cbmc_flags=CADICAL)]
+
+
 def build(tier):
     vcs, fns = result_vcs()
     v2, f2 = tune_vcs()
     vcs += v2 + lemmas()
     fns += f2
     return {
-        'targets': result_targets() + tuner_targets() + optimize_targets() + local_search_targets() + space_targets(), 'vcs': vcs, 'functions': fns,
+        'targets': result_targets() + tuner_targets() + optimize_targets() + local_search_targets() + space_targets() + result_ctor_targets(), 'vcs': vcs, 'functions': fns,
         'decided': [
             'evaluate(): for an arbitrary grid point G -- the callback is asked to evaluate G exactly when G is a candidate that is not yet among the steps (never twice, only candidates); '
             'a non-finite value is rejected with an exception, and only then, and is never stored; on return steps = old steps + one step per evaluated point holding the callback value, '
